@@ -200,6 +200,9 @@ func optIndexInputs() []map[string]tVal {
 		prefix := rec("Suffix", "Index", rec("Index", "Name", tstr("a")))
 		e := rec("Term", "Type", tconst(tplCtx, "TermTypeIdentity"), "SuffixList", tlist(prefix, rec("Suffix", "Index", ix)))
 		out = append(out, map[string]tVal{"e": e, "s": rec("Suffix", "Optional", tbool(true))})
+		// .[k]? — the index directly after the dot is a term of its own kind, with no suffix before the `?`
+		e2 := rec("Term", "Type", tconst(tplCtx, "TermTypeIndex"), "Index", ix, "SuffixList", tlist())
+		out = append(out, map[string]tVal{"e": e2, "s": rec("Suffix", "Optional", tbool(true))})
 	}
 	return out
 }
@@ -210,8 +213,11 @@ func optIndexPred(short string, arg tVal) bool {
 	switch short {
 	case "compileTry", "compileIndex":
 		return true
-	case "compileQuery", "compileTerm":
+	case "compileQuery":
 		return arg.k == tvAST && arg.astLit != nil
+	case "compileTerm":
+		// also the term handed in, so that the index query of `.[k]?` becomes a hole of its own
+		return arg.k == tvAST && arg.astLit != nil || arg.k == tvRec
 	}
 	return false
 }
@@ -295,6 +301,31 @@ func ruleC01Template(c *Ctx, r *Rep) {
 				for i, it := range v.Items {
 					if it.isHole && it.chain == root.fn && (it.arg == "r" || strings.HasSuffix(it.arg, ".r")) {
 						msg = fmt.Sprintf("[%d] the right-hand side of %s is compiled inline, against the input of the whole update: for this operator it must see the value at the path (`{\"a\":1} | .a |= .` would yield {\"a\":{\"a\":1}})", i, strings.TrimPrefix(v.Label, "call:op-"))
+					}
+				}
+			}
+			if msg == "" && root.name == "compileTermSuffix/optional-index" {
+				// `T[k]?` makes the indexing optional, not k: the try bracket encloses no key query — inside it the errors
+				// of k are swallowed, and the first failing index ends the outputs k still has to give
+				inTry := false
+				for i, it := range v.Items {
+					switch {
+					case !it.isHole && it.ins.Op == "opforktrybegin":
+						inTry = true
+					case !it.isHole && it.ins.Op == "opforktryend":
+						inTry = false
+					case it.isHole && inTry && strings.HasPrefix(it.argDesc, "<query:"):
+						msg = fmt.Sprintf("[%d] the %s of an optional index is compiled between opforktrybegin and opforktryend: `[1,2] | [.[(0,\"a\",1)]?]` yields [1] instead of [1,2] and `{} | .[error(\"x\")]?` yields nothing instead of raising x — `?` after an index makes the indexing optional, not the evaluation of the key (the parenthesised spelling `(.)[k]?` of the same query is compiled that way)", i, strings.Trim(it.argDesc, "<>"))
+					}
+				}
+			}
+			if msg == "" && root.fn == "compilePattern" && root.name == "" {
+				// the key query of an object pattern is written between parentheses that belong to the pattern, so no term
+				// opens a scope for it: compilePattern has to, or a function defined at its head is resolvable in the body
+				// of the binding and in the patterns that follow
+				for _, h := range v.HoleLog {
+					if (h.arg == "kv.KeyQuery" || strings.HasSuffix(h.arg, ".KeyQuery")) && h.fn == "compilePattern" && len(h.regions) == 0 {
+						msg = "compilePattern compiles " + h.arg + " outside any scope-depth region: a function defined at the head of a pattern's key query stays resolvable after the pattern — `def f: \"b\"; {a:1,b:2} as {(def f: \"a\"; f): $x} | [f,$x]` yields [\"a\",1] (jq: [\"b\",1])"
 					}
 				}
 			}
